@@ -15,7 +15,7 @@ for l in open('/verif/properties.jsonl'):
     if d['id'] == prop: title = d['title']
 base = subprocess.run(['git', '-C', '/repo', 'rev-parse', '--short', 'HEAD'], capture_output=True, text=True).stdout.strip()
 meta = dict(seed_id=sid, breaks_property=prop, property_title=title, needs_to_manifest=needs,
-            produced_by='independent sub-agent (round 2 or 3) given only the property text, the hint to avoid the round-1 location, and a scratch worktree of /repo',
+            produced_by='independent sub-agent (round 2, 3 or 4) given only the property text, the hint to avoid the round-1 location, and a scratch worktree of /repo',
             confirmed_by_me=dict(commands='/tmp/mut/confirm.sh %s : ninja; ctest -j8 (with change); demo/run.sh (with change); git checkout -- src include; ninja; demo/run.sh (without change)' % sid,
                                  result='see log_excerpt', log_excerpt=keep),
             patch_base='%s (/repo HEAD with all fix: commits)' % base)
